@@ -132,7 +132,7 @@ def _summ(h):
         raws = [(r.raw_spec.get('method'), r.raw_spec.get('query'),
                  r.status if r.kind == 'http' else
                  ('accepted' if r.ws.accepted else 'refused'),
-                 r.t_issue)
+                 r.t_issue, r.query)
                 for r in c.raws]
         out[c.idx] = {'events': evs, 'msgs': msgs, 'raws': raws,
                       'sid': c.sid, 'causes': {
@@ -173,9 +173,29 @@ def run(plan, sched_values=None, sched_seed=0):
     I = plan['config']['ping_interval']
     T = plan['config']['ping_timeout']
     stuck = _k1_present(ha) or _k1_present(hb)
+    # when each server saw each session end (a raw request may address
+    # another client's session)
+    DA = {i: [(arg, t) for ev, arg, sid, t in sa[i]['events']
+              if ev == 'disconnect'] for i in sa}
+    DB = {i: [(arg, t) for ev, arg, sid, t in sb[i]['events']
+              if ev == 'disconnect'] for i in sb}
+    # a session that somebody else polls as well (a session id is a bearer
+    # token) hands each packet to whichever reader the server wakes first:
+    # what its own client sees, and therefore does, is not comparable
+    contended = set()
+    for idx in sa:
+        for j in sa:
+            if j != idx and sa[idx]['sid'] and any(
+                    r[0] == 'GET' and ('sid=%s' % sa[idx]['sid']) in
+                    (r[4] or '') for r in sa[j]['raws']):
+                contended.add(idx)
     for idx in sorted(sa):
         a, b = sa[idx], sb.get(idx)
         if b is None:
+            continue
+        if idx in contended:
+            pr['contended_session_skipped'] = pr.get(
+                'contended_session_skipped', 0) + 1
             continue
         pr['compared_sessions'] = pr.get('compared_sessions', 0) + 1
         # ---- application events ------------------------------------------------
@@ -196,6 +216,17 @@ def run(plan, sched_values=None, sched_seed=0):
         if not same and not _ended_differently(a, b, T):
             only_a = [x for x in ma if _key(x) not in set(map(_key, mb))]
             only_b = [x for x in mb if _key(x) not in set(map(_key, ma))]
+            # (a message that reaches the server in the instant the session
+            # ends for another reason is a tie: either order is right)
+            ends = [t for ev, arg, sid, t in a['events'] + b['events']
+                    if ev == 'disconnect']
+            tied = {_key(arg) for ev, arg, sid, t in a['events'] + b['events']
+                    if ev == 'message' and
+                    any(abs(t - te) <= 4 * TICK for te in ends)}
+            if (only_a or only_b) and all(_key(x) in tied
+                                          for x in only_a + only_b):
+                pr['message_tied_with_end'] = 1
+                continue
             v.append(V('same-events', 'diff|message-events|%s' % (
                 'only-threaded' if only_a else ('only-asyncio' if only_b
                                                 else 'order')),
@@ -207,30 +238,42 @@ def run(plan, sched_values=None, sched_seed=0):
         db = [(arg, t) for ev, arg, sid, t in b['events']
               if ev == 'disconnect']
         causes = [cz for sid in a['causes'] for cz in a['causes'][sid]]
-        imm = [cz for cz in causes if cz[0] in IMMEDIATE]
-        if len(da) != len(db):
-            # one side ended by silence only: both must be gone by the bound
-            end = min(ha.final['now'], hb.final['now'])
-            sil = [cz for cz in causes if cz[0] in ('silence',
-                                                     'poll_timeout')]
-            late = [t for _r, t in (da + db)]
-            grey = (not imm and sil and (
-                not late or max(late) > end - (I + 3 * T + 1))) or stuck
-            if not grey:
-                v.append(V('same-events', 'diff|disconnect-count|%d-vs-%d' %
-                           (len(da), len(db)),
-                           'client %d: threaded saw disconnects %r, asyncio '
-                           '%r (causes %r)' % (idx, da, db, causes[:4])))
-        elif da and imm and da[0][0] != db[0][0]:
-            first = min(imm, key=lambda x: x[1])
-            if all(x is first or x[1] > first[1] + 4 * TICK
-                   for x in causes) and not stuck:
-                v.append(V('same-reason', 'diff|disconnect-reason|%s|%s-vs-%s'
-                           % (first[0], da[0][0], db[0][0]),
-                           'client %d: end cause %s at t=%.4f: threaded '
-                           'reports %r, asyncio %r' % (
-                               idx, first[0], first[1], da[0][0],
-                               db[0][0])))
+        # (per session: a client may have had several)
+        for sid in a['causes']:
+            sda = [(arg, t) for ev, arg, s_, t in a['events']
+                   if ev == 'disconnect' and s_ == sid]
+            sdb = [(arg, t) for ev, arg, s_, t in b['events']
+                   if ev == 'disconnect' and s_ == sid]
+            scz = a['causes'][sid]
+            imm = [cz for cz in scz if cz[0] in IMMEDIATE]
+            if len(sda) != len(sdb):
+                # one side ended by silence only: both must be gone by the
+                # bound
+                end = min(ha.final['now'], hb.final['now'])
+                sil = [cz for cz in scz if cz[0] in ('silence',
+                                                      'poll_timeout')]
+                late = [t for _r, t in (sda + sdb)]
+                grey = (not imm and sil and (
+                    not late or max(late) > end - (I + 3 * T + 1))) or stuck
+                if not grey:
+                    v.append(V('same-events',
+                               'diff|disconnect-count|%d-vs-%d' % (
+                                   len(sda), len(sdb)),
+                               'client %d session %s: threaded saw '
+                               'disconnects %r, asyncio %r (causes %r)' % (
+                                   idx, sid, sda, sdb, scz[:4])))
+            elif sda and imm and sda[0][0] != sdb[0][0]:
+                first = min(imm, key=lambda x: x[1])
+                if all(x is first or x[1] > first[1] + 4 * TICK
+                       for x in scz) and not stuck and \
+                        first[1] <= min(sda[0][1], sdb[0][1]) + 4 * TICK:
+                    v.append(V('same-reason',
+                               'diff|disconnect-reason|%s|%s-vs-%s' % (
+                                   first[0], sda[0][0], sdb[0][0]),
+                               'client %d session %s: end cause %s at '
+                               't=%.4f: threaded reports %r, asyncio %r' % (
+                                   idx, sid, first[0], first[1], sda[0][0],
+                                   sdb[0][0])))
         # ---- messages handed to the client --------------------------------------
         if a['msgs'] != b['msgs'] and not _ended_differently(a, b, T) and \
                 len(da) == len(db):
@@ -264,7 +307,8 @@ def run(plan, sched_values=None, sched_seed=0):
                 # request is the gateway driver's business
                 continue
             if ra[2] != rb[2] and not _near_end(ra[3], da, db, causes) and \
-                    not stuck:
+                    not any(_between_ends(ra[3], DA[i], DB.get(i, []))
+                            for i in DA) and not stuck:
                 v.append(V('same-admission', 'diff|admission|%s|%s-vs-%s' % (
                     ra[0], ra[2], rb[2]),
                     'client %d: %s %r issued at t=%.4f: threaded answered '
@@ -274,7 +318,7 @@ def run(plan, sched_values=None, sched_seed=0):
     for (ta, rowa), (tb, rowb) in zip(na, nb):
         pr['compared_snapshots'] = pr.get('compared_snapshots', 0) + 1
         for idx in rowa:
-            if rowa[idx] == rowb.get(idx):
+            if rowa[idx] == rowb.get(idx) or idx in contended:
                 continue
             a = sa.get(idx, {})
             causes = [cz for sid in a.get('causes', {})
@@ -320,6 +364,20 @@ def _ended_differently(a, b, T):
     if len(ta) != len(tb):
         return True
     return any(abs(x - y) > 4 * TICK for x, y in zip(ta, tb))
+
+
+def _between_ends(t, da, db, window=0.1):
+    """The two servers noticed the end of the session at different moments
+    (silence is detected by different mechanisms, each within the heartbeat
+    bound that C07 checks per server): a request issued in between meets a
+    live session on one side and a dead one on the other."""
+    ta = [x[1] for x in da]
+    tb = [x[1] for x in db]
+    if not ta and not tb:
+        return False
+    lo = min(ta + tb)
+    hi = max(ta + tb) if (ta and tb) else float('inf')
+    return lo - window <= t <= hi + window
 
 
 def _near_end(t, da, db, causes, window=0.1):
